@@ -1321,6 +1321,138 @@ struct Hostile {
     /// accepted snapshots (as ints) seen so far: partners for create / apply
     pool: Vec<Vec<i32>>,
     deltas: Vec<(Table, Vec<i32>)>,
+    cost: CostTie,
+}
+
+// ---------------------------------------------------------------- the model's allocation meter
+/// Real peak live bytes of a reader call (fresh receiver, non-allocating warning sink) are held
+/// against the high-water mark of the cost-instrumented Coq model (Model/SnapCost.v, words of
+/// payload requested): real <= COST_B * model_words + COST_K.  The model's numbers come from the
+/// extracted model itself: the OCaml driver is run in cost mode over `cost_cases.txt`.
+/// COST_B: 4 bytes per word x the allocator's slack (Vec doubling: 2x; B-tree leaves at least
+/// half full + inner nodes: 144-byte leaves of 5..11 offsets entries <= 3x, 56-byte leaves of
+/// 5..11 set elements <= 3.8x; measured on the hostile stream: <= 2.3x);
+/// COST_K: one minimal leaf per map/set (144 + 144 + 56 + 216 bytes) and the minimal Vec capacities.
+const COST_B: usize = 16;
+const COST_K: usize = 512;
+struct CostTie {
+    file: Option<std::io::BufWriter<std::fs::File>>,
+    dir: std::path::PathBuf,
+    /// (cost id, case id, what, real peak bytes)
+    pending: Vec<(String, String, String, usize)>,
+    /// the absolute statement of the property, judged after the model-referenced one so that a
+    /// failing case lists both, the model's figure first: cost id -> (input bytes, real peak bytes incl. the warning vector)
+    absolute: std::collections::HashMap<String, (usize, usize)>,
+}
+impl CostTie {
+    fn new(dir: &std::path::Path) -> CostTie {
+        let file = std::fs::File::create(dir.join("cost_cases.txt")).ok().map(std::io::BufWriter::new);
+        CostTie { file, dir: dir.to_path_buf(), pending: vec![], absolute: Default::default() }
+    }
+    /// as `record`, plus the absolute check `used_abs <= 48 x input_bytes + 4 KiB` for the same call
+    fn record_abs(&mut self, case_id: &str, what: &str, cmd: String, used: usize, input_bytes: usize, used_abs: usize) {
+        self.record(case_id, what, cmd, used);
+        let cid = self.pending.last().unwrap().0.clone();
+        self.absolute.insert(cid, (input_bytes, used_abs));
+    }
+    fn check_abs(&self, o: &mut Out, cid: &str, case_id: &str) {
+        if let Some(&(input_bytes, used)) = self.absolute.get(cid) {
+            o.check(used <= 48 * input_bytes + 4096, "-", case_id, || format!("reading {} input bytes allocated {} bytes", input_bytes, used));
+        }
+    }
+    fn check_abs_all(&self, o: &mut Out) {
+        for (cid, case_id, _, _) in &self.pending {
+            self.check_abs(o, cid, case_id);
+        }
+    }
+    /// remember one metered reader call; `cmd` is the line the driver's cost mode understands
+    fn record(&mut self, case_id: &str, what: &str, cmd: String, used: usize) {
+        use std::io::Write;
+        let cid = format!("k{}", self.pending.len() + 1);
+        if let Some(f) = self.file.as_mut() {
+            let _ = writeln!(f, "{}\t{}", cid, cmd);
+        }
+        self.pending.push((cid, case_id.to_string(), what.to_string(), used));
+    }
+    /// run the extracted model over the recorded calls and compare
+    fn finish(mut self, o: &mut Out) {
+        use std::io::Write;
+        if self.pending.is_empty() {
+            return;
+        }
+        let ok_file = match self.file.take() {
+            Some(mut f) => f.flush().is_ok(),
+            None => false,
+        };
+        // <build>/run/<property>/<component>/ -> <build>/ocaml/_build/default/drv_snap.exe
+        let drv = std::env::var("DRV_SNAP").map(std::path::PathBuf::from).unwrap_or_else(|_| {
+            let abs = std::fs::canonicalize(&self.dir).unwrap_or(self.dir.clone());
+            abs.join("../../../ocaml/_build/default/drv_snap.exe")
+        });
+        let out = if !ok_file {
+            Err("cost_cases.txt could not be written".to_string())
+        } else {
+            std::fs::File::open(self.dir.join("cost_cases.txt")).map_err(|e| e.to_string()).and_then(|inp| {
+                std::process::Command::new(&drv)
+                    .env("DRV_SNAP_COST", "1")
+                    .stdin(inp)
+                    .stderr(std::process::Stdio::null())
+                    .output()
+                    .map_err(|e| format!("{}: {}", drv.display(), e))
+            })
+        };
+        let text = match out {
+            Ok(x) if x.status.success() => String::from_utf8_lossy(&x.stdout).into_owned(),
+            Ok(x) => {
+                o.check(false, "-", "cost-model", || format!("the model driver in cost mode ended with {} ({})", x.status, drv.display()));
+                self.check_abs_all(o);
+                return;
+            }
+            Err(e) => {
+                o.check(false, "-", "cost-model", || format!("the model driver could not be run in cost mode: {}", e));
+                self.check_abs_all(o);
+                return;
+            }
+        };
+        let _ = std::fs::write(self.dir.join("cost_model.txt"), &text);
+        let real: String = self.pending.iter().map(|(cid, case_id, what, used)| format!("{}\t{}\t{}\t{}\n", cid, case_id, what, used)).collect();
+        let _ = std::fs::write(self.dir.join("cost_real.txt"), real);
+        let model: std::collections::HashMap<&str, &str> = text.lines().filter_map(|l| l.split_once('\t')).collect();
+        let (mut worst_pm, mut worst_at) = (0usize, String::new());
+        for (cid, case_id, what, used) in &self.pending {
+            let m = model.get(cid.as_str()).copied().unwrap_or("missing");
+            if m == "-" {
+                o.count("cost-tie: operands not accepted by the model (skipped)");
+                self.check_abs(o, cid, case_id);
+                continue;
+            }
+            let words: Option<usize> = m.split(':').next().and_then(|x| x.parse().ok());
+            match words {
+                None => o.check(false, "-", case_id, || format!("{}: no model peak for this call (driver said {:?})", what, m)),
+                Some(wd) => {
+                    o.count("cost-tie: reader calls held against the model's peak");
+                    let bound = COST_B * wd + COST_K;
+                    let pm = used * 1000 / bound;
+                    if pm > worst_pm {
+                        worst_pm = pm;
+                        worst_at = format!("{} {}: real {} bytes, model {} words", case_id, what, used, wd);
+                    }
+                    o.check(*used <= bound, "-", case_id, || {
+                        format!("{}: the real code held {} bytes at its peak; the model's high-water mark is {} words, allowing {} x {} + {} = {} bytes", what, used, wd, COST_B, wd, COST_K, bound)
+                    });
+                }
+            }
+            self.check_abs(o, cid, case_id);
+        }
+        o.count(&format!("cost-tie: worst real/({} x model words + {}) = {}.{:03} at {}", COST_B, COST_K, worst_pm / 1000, worst_pm % 1000, worst_at));
+    }
+}
+/// peak live bytes of `f` above the level at entry (panics are caught)
+fn metered_guarded(f: impl FnOnce()) -> usize {
+    metered(|| {
+        let _ = guard(f);
+    })
+    .1
 }
 
 /// every follow-up operation on an accepted snapshot in register S0 (ints `src`)
@@ -1459,12 +1591,21 @@ fn do_hostile_snap(o: &mut Out, h: &mut Hostile, r: &mut Rng, ints: &[i32], as_b
             std::mem::forget(s);
         });
     });
+    // the same call for the model's meter: the library's containers only (no warning vector)
+    let used_lib = metered_guarded(|| {
+        let mut s = Snap::empty();
+        match as_bytes {
+            Some(b) => { let mut scratch = vec![]; let _ = s.read(&mut libtw2_warn::Ignore, &mut scratch, b); }
+            None => { let _ = s.read_from_ints(&mut libtw2_warn::Ignore, ints); }
+        }
+    });
+    let cost_cmd = m.script[0].replacen(" 0 ", " ", 1);
     if res.starts_with("ok") {
         snap_followups(o, h, r, &mut m, fresh);
     }
     let (out, script, pm) = (m.out.clone(), m.script.clone(), m.panic_msg.clone());
     let (id, _) = m.finish(o);
-    o.check(used <= 48 * input_bytes + 4096, "-", &id, || format!("reading {} input bytes allocated {} bytes", input_bytes, used));
+    h.cost.record_abs(&id, if as_bytes.is_some() { "Snap::read" } else { "Snap::read_from_ints" }, cost_cmd, used_lib, input_bytes, used);
     judge(o, &id, &out, &script, &pm);
 }
 
@@ -1487,6 +1628,15 @@ fn do_hostile_delta(o: &mut Out, h: &mut Hostile, r: &mut Rng, t: &Table, ints: 
             std::mem::forget(d);
         });
     });
+    let used_lib = metered_guarded(|| {
+        let mut d = Delta::new();
+        match as_bytes {
+            Some(b) => { let _ = d.read(&mut libtw2_warn::Ignore, tbl_fn(t), &mut Unpacker::new(b)); }
+            None => { let _ = d.read_from_ints(&mut libtw2_warn::Ignore, tbl_fn(t), &mut IntUnpacker::new(ints)); }
+        }
+    });
+    let cost_cmd = m.script[0].replacen(" 0 ", " ", 1);
+    let mut cost_apply: Option<(String, usize)> = None;
     let mut reusable = None;
     if res.starts_with("ok") {
         // written out with explicit sizes and read back: the same delta again
@@ -1508,6 +1658,17 @@ fn do_hostile_delta(o: &mut Out, h: &mut Hostile, r: &mut Rng, t: &Table, ints: 
             m.rwi(1, 16384);
             if !m.dead && !h.pool.is_empty() {
                 let other = r.pick(&h.pool).clone();
+                // Snap::read_with_delta on fresh values, for the model's meter
+                let (mut s0, mut d0) = (Snap::empty(), Delta::new());
+                if s0.read_from_ints(&mut libtw2_warn::Ignore, &other).is_ok()
+                    && d0.read_from_ints(&mut libtw2_warn::Ignore, |_| None, &mut IntUnpacker::new(&di)).is_ok()
+                {
+                    let used_apply = metered_guarded(|| {
+                        let mut s = Snap::empty();
+                        let _ = s.read_with_delta(&mut libtw2_warn::Ignore, &s0, &d0);
+                    });
+                    cost_apply = Some((format!("apply {} - {}", ints_txt(&other), ints_txt(&di)), used_apply));
+                }
                 m.ri(0, &other);
                 m.apply(1, 0, 0);
                 m.items(1);
@@ -1530,7 +1691,10 @@ fn do_hostile_delta(o: &mut Out, h: &mut Hostile, r: &mut Rng, t: &Table, ints: 
     }
     let (script, pm) = (m.script.clone(), m.panic_msg.clone());
     let (id, _) = m.finish(o);
-    o.check(used <= 48 * input_bytes + 4096, "-", &id, || format!("reading {} input bytes allocated {} bytes", input_bytes, used));
+    h.cost.record_abs(&id, if as_bytes.is_some() { "Delta::read" } else { "Delta::read_from_ints" }, cost_cmd, used_lib, input_bytes, used);
+    if let Some((cmd, used_apply)) = cost_apply {
+        h.cost.record(&id, "Snap::read_with_delta", cmd, used_apply);
+    }
     if let Some(p) = &pm {
         o.check(false, "-", &id, || format!("panic in {} after [{}]", p, script.join(" | ").chars().take(400).collect::<String>()));
     }
@@ -1544,9 +1708,9 @@ fn edgy_ints(r: &mut Rng, n: usize) -> Vec<i32> {
     (0..n).map(|_| match r.below(5) { 0 => *r.pick(&BOUNDS), 1 => r.range(0, 40) as i32 * 4, 2 => r.range(-3, 12) as i32, 3 => r.i32_edgy(), _ => key_of(*r.pick(&TYPES), *r.pick(&IDS)) }).collect()
 }
 
-fn gen_c11(o: &mut Out, r: &mut Rng, th: bool) {
+fn gen_c11(o: &mut Out, r: &mut Rng, th: bool, dir: &std::path::Path) {
     let fresh = uuid_n(1000);
-    let mut h = Hostile { pool: vec![], deltas: vec![] };
+    let mut h = Hostile { pool: vec![], deltas: vec![], cost: CostTie::new(dir) };
     let u = |n: u64| -> Vec<i32> { let b = uuid_n(n); b.as_bytes().chunks(4).map(|c| i32::from_be_bytes([c[0], c[1], c[2], c[3]])).collect() };
     // ---- valid bases
     let mut bases: Vec<Vec<i32>> = vec![
@@ -1742,6 +1906,8 @@ fn gen_c11(o: &mut Out, r: &mut Rng, th: bool) {
             do_hostile_delta(o, &mut h, r, &t, &v, None);
         }
     }
+    // ---- the allocation meter of the real code against the model's meter, call by call
+    h.cost.finish(o);
 }
 
 fn main() {
@@ -1750,7 +1916,7 @@ fn main() {
     let rule = match mode.as_str() {
         "c09" => "pairs of raw snapshots (A,B): one key exhaustively (157x157 states), two keys straddling 0x8000 (thorough), random 1..4 keys from a 13-key universe, random pairs up to 1024 items / 64 KiB; per pair: create, dump, apply, table/explicit-size wire forms in ints and bytes, read back, apply again, the DDNet reference (delta + serialisation) where it can represent the pair. distinct = distinct sequences of command outcomes (ok/err kind/warnings/panic)",
         "c10" => "builder op lists (exhaustive up to length 3 over 6 ops; random with 0..40 UUID types interleaved with ordinals; up to the item and size limits): build, items, crc, write ints/bytes, read back, lookups, after a delta, recycle + add a known and a fresh UUID type. distinct = distinct sequences of command outcomes",
-        _ => "hostile snapshot and delta inputs (valid bases, every single-field corruption x 16 boundary values and neighbours, truncation at every int and byte position, duplicate keys, registry items of wrong length, type numbers across the 16-bit range, registry id chains, oversized counts, random words and bytes), each followed by every follow-up operation on what was accepted. distinct = distinct sequences of command outcomes",
+        _ => "hostile snapshot and delta inputs (valid bases, every single-field corruption x 16 boundary values and neighbours, truncation at every int and byte position, duplicate keys, registry items of wrong length, type numbers across the 16-bit range, registry id chains, oversized counts, random words and bytes), each followed by every follow-up operation on what was accepted; every hostile reader call and every read_with_delta of an accepted delta on an accepted snapshot is metered on the real allocator and held against the high-water mark of the cost-instrumented model (Model/SnapCost.v, run by the driver in cost mode). distinct = distinct sequences of command outcomes",
     };
     let mut o = Out::new(&a, rule);
     let mut r = Rng::new(a.seed ^ match mode.as_str() { "c09" => 0x900, "c10" => 0x1000, _ => 0x1100 });
@@ -1761,7 +1927,7 @@ fn main() {
             gen_c09(&mut o, &mut cx, &mut r, th);
         }
         "c10" => gen_c10(&mut o, &mut r, th),
-        _ => gen_c11(&mut o, &mut r, th),
+        _ => gen_c11(&mut o, &mut r, th, &a.out),
     }
     o.finish();
 }
